@@ -599,6 +599,8 @@ type caseRun struct {
 	unsettled string
 	nres      int
 	nobjs     int
+	svcs      int // services listed by the registries in build 0
+	dupKeys   int // of which share the whole comparator key with another one (hypothesis of sortServices_canonical)
 }
 
 func insertionOrder(c permCase, objs []obj, k int) ([]obj, int) {
@@ -661,6 +663,16 @@ func runCase(c permCase, keepRaw bool) (cr *caseRun) {
 		if k == 0 {
 			want = fp
 			wantLines = w.fingerprintLines()
+			seen := map[string]bool{}
+			for _, sv := range w.s.Env().ServiceDiscovery.Services() {
+				key := fmt.Sprintf("%d|%s|%s|%s|%s|%s", sv.CreationTime.UnixNano(), sv.Attributes.Name, sv.Attributes.Namespace,
+					sv.Attributes.K8sAttributes.ObjectName, sv.Hostname, sv.DefaultAddress)
+				cr.svcs++
+				if seen[key] {
+					cr.dupKeys++
+				}
+				seen[key] = true
+			}
 		}
 		var prev *model.PushContext
 		for r := 0; r < c.r; r++ {
@@ -748,7 +760,7 @@ func observePerm(in, outp string) {
 			fl = append(fl, k+":"+strconv.Itoa(v))
 		}
 		sort.Strings(fl)
-		out.Line("info", "feat="+joinElems(fl))
+		out.Line("info", "feat="+joinElems(fl), "svcs="+strconv.Itoa(cr.svcs), "dupkeys="+strconv.Itoa(cr.dupKeys))
 		if cr.unsettled != "" {
 			out.Line("skip", wire.Enc(cr.unsettled))
 		} else {
